@@ -856,7 +856,7 @@ def miri_native():
     return os.path.join(VERIF, "target", tag + "-native", "debug", "mirithreads")
 
 
-def miri_run(base, nw, table, seed_lo, seed_hi, rate, idx=None, seq=False):
+def miri_run(base, nw, table, seed_lo, seed_hi, rate, idx=None, seq=False, rounds=1):
     """run the thread workload under Miri for scheduler seeds [seed_lo, seed_hi); returns (rc, output).
     Each seed is a fresh interpreter (a cold process); the seed also selects which of the `nw` workloads runs."""
     bdir, mpath, tag = miri_dirs()
@@ -871,8 +871,8 @@ def miri_run(base, nw, table, seed_lo, seed_hi, rate, idx=None, seq=False):
     cmd = ["cargo", "+nightly", "miri", "run", "--offline", "--quiet", "--manifest-path", mpath, "--", "run", str(base), str(nw), table]
     if idx is not None:
         cmd.append(str(idx))
-        if seq:
-            cmd.append("seq")
+        cmd.append("seq" if seq else "par")
+        cmd.append(str(rounds))
     p = subprocess.run(cmd, env=env, cwd=bdir, stdout=subprocess.PIPE, stderr=subprocess.STDOUT, text=True)
     return p.returncode, p.stdout
 
@@ -1117,10 +1117,12 @@ def miri_jobs(tier, sd):
     # that is written with atomics is no data race for the interpreter - only a schedule that mixes two writers shows it
     cheap = [2 * MIRI_NOPS + k for k in (5, 7, 8, 10, 15, 19, 20, 21, 22, 23, 24, 26, 30)]
     hrates = [("0.03", 11), ("0.3", 12), ("0.5", 13)] if tier == "quick" else [("0.02", 11), ("0.05", 12), ("0.2", 13), ("0.3", 14), ("0.5", 15), ("0.7", 16), ("0.9", 17), ("0.15", 18)]
+    hrounds = 5 if tier == "quick" else 10
+    jobs = [(w, s_, rate, 1) for (w, s_, rate) in jobs]
     for rate, k in hrates:
         for w in cheap:
-            jobs.append((w, lo + 50000 + k * 1009 + w, rate))
-    jobs.sort(key=lambda j: -miri_cost_hint(j[0]))  # longest first: a short tail for the pool
+            jobs.append((w, lo + 50000 + k * 1009 + w, rate, hrounds))
+    jobs.sort(key=lambda j: -miri_cost_hint(j[0]) * (1 + j[3]) / 2)  # longest first: a short tail for the pool
     return jobs
 
 
@@ -1150,30 +1152,33 @@ def run_miri_layer(pid, tier, sd, replay_dir, results, violations, known, others
     jobs = miri_jobs(tier, sd)
     t0 = time.time()
     # the first job also builds the interpreter's copy of the program
-    first = miri_run(base, NW, table, jobs[0][1], jobs[0][1] + 1, jobs[0][2], jobs[0][0])
+    first = miri_run(base, NW, table, jobs[0][1], jobs[0][1] + 1, jobs[0][2], jobs[0][0], rounds=jobs[0][3])
     with ThreadPoolExecutor(max_workers=NCPU) as ex:
-        outs = [first] + list(ex.map(lambda j: miri_run(base, NW, table, j[1], j[1] + 1, j[2], j[0]), jobs[1:]))
+        outs = [first] + list(ex.map(lambda j: miri_run(base, NW, table, j[1], j[1] + 1, j[2], j[0], rounds=j[3]), jobs[1:]))
     picked = {}
     per_rate = {}
     failed = []
     orders = set()
-    for (w, s_, rate), (rc, out) in zip(jobs, outs):
+    rounds_total = 0
+    for (w, s_, rate, nr), (rc, out) in zip(jobs, outs):
+        rounds_total += nr
         m = re.search(r"WORKLOAD (\d+) threads=(\d+) first=(\w+)", out)
         if m:
             picked[m.group(3)] = picked.get(m.group(3), 0) + 1
         per_rate[rate] = per_rate.get(rate, 0) + 1
         mo = re.search(r"^ORDER (.*)$", out, re.M)
         if mo:
-            orders.add((w, mo.group(1)))
+            for o in mo.group(1).split(" ;; "):
+                orders.add((w, o))
         if rc != 0:
-            failed.append((w, s_, rate, out))
+            failed.append((w, s_, rate, nr, out))
     total = len(jobs)
-    results.append(dict(base_seed=base, workloads=NW, interpreter_runs=total, runs_per_preemption_rate=per_rate,
+    results.append(dict(base_seed=base, workloads=NW, interpreter_runs=total, thread_rounds=rounds_total, runs_per_preemption_rate=per_rate,
                         distinct_interleavings=dict(measure="distinct (workload, global completion order of the threads' calls) pairs", count=len(orders)), first_call_kinds_raced=picked,
                         failed_runs=len(failed), wall_s=round(time.time() - t0, 1)))
     log("[%s] miri: %d interpreter runs (every one of %d workloads, rates %s): %d failed; first-call kinds raced: %s" % (pid, total, NW, per_rate, len(failed), picked))
     seen_sig = set()
-    for (w, s_, rate, out1) in failed:
+    for (w, s_, rate, nr, out1) in failed:
         if "WORKLOAD" not in out1 and "error: could not compile" in out1:
             log(out1[-3000:])
             raise HarnessError("the thread workload does not build for the interpreter")
@@ -1181,7 +1186,7 @@ def run_miri_layer(pid, tier, sd, replay_dir, results, violations, known, others
         needs_overlap = None
         if what not in ("data race", "deadlock"):
             # the same threads one after the other in the same interpreter configuration: does the failure need them to overlap?
-            rc2, out2 = miri_run(base, NW, table, s_, s_ + 1, rate, w, seq=True)
+            rc2, out2 = miri_run(base, NW, table, s_, s_ + 1, rate, w, seq=True, rounds=nr)
             needs_overlap = rc2 == 0
             if needs_overlap and what.startswith("undefined behaviour"):
                 what = "undefined behaviour only when the threads overlap"
@@ -1192,7 +1197,7 @@ def run_miri_layer(pid, tier, sd, replay_dir, results, violations, known, others
         seen_sig.add(sig)
         tail = "\n".join(l for l in out1.splitlines() if l.strip())
         head = "\n".join(tail.splitlines()[:6])[:700]
-        f = dict(kind="miri", base_seed=base, workloads=NW, workload_index=w, explicit_index=True, miri_seed=s_, preemption_rate=rate, table=table,
+        f = dict(kind="miri", base_seed=base, workloads=NW, workload_index=w, explicit_index=True, miri_seed=s_, preemption_rate=rate, rounds=nr, table=table,
                  ops=[plans[w]] if 0 <= w < len(plans) else [], minimised_from=1,
                  violation=dict(properties=props, invariant="T1", signature=sig, at_op=0,
                                 detail="Miri scheduler seed %d, preemption rate %s, workload %d: %s%s\n%s\n...\n%s" % (
@@ -1620,7 +1625,7 @@ def replay(pid, path):
         return 0
     if j.get("kind") == "miri":
         rc, out = miri_run(j["base_seed"], j["workloads"], j["table"], j["miri_seed"], j["miri_seed"] + 1, j["preemption_rate"],
-                           j["workload_index"] if j.get("explicit_index") else None)
+                           j["workload_index"] if j.get("explicit_index") else None, rounds=j.get("rounds", 1))
         if rc != 0:
             sig = j["violation"]["signature"]
             if pid not in j["violation"]["properties"]:
@@ -1794,10 +1799,10 @@ def selftest_determinism():
     native = miri_native()
     exp = subprocess.run([native, "expected", "7", str(NW)], stdout=subprocess.PIPE, text=True).stdout.strip()
     from concurrent.futures import ThreadPoolExecutor
-    mjobs = [(w, 100 + w, rate) for w in (0, 7, 21, 26, 40, 58, 81, 95, 100) for rate in ("0.05", "0.4")]
+    mjobs = [(w, 100 + w, rate, 3 if w >= 74 else 1) for w in (0, 7, 21, 26, 40, 58, 81, 95, 100) for rate in ("0.05", "0.4")]
     with ThreadPoolExecutor(max_workers=NCPU) as ex:
-        r1 = list(ex.map(lambda j: miri_run(7, NW, exp, j[1], j[1] + 1, j[2], j[0]), mjobs))
-        r2 = list(ex.map(lambda j: miri_run(7, NW, exp, j[1], j[1] + 1, j[2], j[0]), mjobs))
+        r1 = list(ex.map(lambda j: miri_run(7, NW, exp, j[1], j[1] + 1, j[2], j[0], rounds=j[3]), mjobs))
+        r2 = list(ex.map(lambda j: miri_run(7, NW, exp, j[1], j[1] + 1, j[2], j[0], rounds=j[3]), mjobs))
     orders = set()
     for j, a, b_ in zip(mjobs, r1, r2):
         o1 = [l for l in a[1].splitlines() if l.startswith("ORDER") or l.startswith("WORKLOAD")]
